@@ -13,6 +13,9 @@ import XrsVerif.Proofs.ILViewshedDel
 import XrsVerif.Proofs.ILViewshedLift
 import XrsVerif.Proofs.ILVsNV
 import XrsVerif.Proofs.ILVsSweepFill
+import XrsVerif.Proofs.ILViewshedFixOrder
+import XrsVerif.Proofs.ILViewshedDelRefines
+import XrsVerif.Proofs.ILViewshedDelOrder
 import Mathlib.Tactic.Positivity
 /-
   C05 -- viewshed marks a cell visible exactly when the line-of-sight model says so.
@@ -90,7 +93,9 @@ import Mathlib.Tactic.Positivity
     * the generated status-tree routines (section 7, layer T3): `generated_query_decides` -- the program translated
       statement by statement from `_max_grad_in_status_struct` decides line of sight on every state whose arrays hold a
       well-linked BST without overestimates below the root; `generated_rotations_are_model_rotations`,
-      `generated_left_rotation_preserves`, `generated_small_routines`, `generated_tree_successor`.
+      `generated_left_rotation_preserves`, `generated_small_routines`, `generated_tree_successor`;
+      `generated_insert_is_model_insert` -- the program translated from `_insert_into_tree` (with `_rb_insert_fixup` and
+      its rotations inlined) leaves arrays holding the model's complete insertion `rbInsert`, which preserves `Rel` and `AugLe`.
       NOT in the model: the float value of a bearing (`atan`), of a gradient (`atan`, `sqrt`) -- compared by seam 0 / the
       geometric oracle of the correspondence; NaN terrains (outside the property's quantifier).
 -/
@@ -1044,48 +1049,143 @@ theorem generated_tree_successor (s : State F) (fuel n : Nat) (hv : VS s n) (hru
   obtain ⟨k, hk, hh⟩ := succPtr_head (s.fa "tree_vals") (s.ia "tree_nodes") i rl m rr ctx
   exact ⟨h1, k, h2.trans hk, hh⟩
 
-/-- **the generated `_insert_into_tree` up to `_rb_insert_fixup`** (PARTIAL: the fixup itself -- the recolouring loop with
-    its six inlined rotations, `ILVs.insFixup` -- is not covered): on arrays holding a non-empty BST image `t0`, with
-    `node_id` a fresh row and `value` the node `nn`, the program reaches the fixup with arrays that hold the model's
-    `leafInsert nn t0` (descent to the empty slot, creation and linking of the new red leaf, upward propagation of its
-    minimum gradient), well linked, no row twice -- hence (`leaf_insert_preserves` with no rebalancing) related to the
-    active list with the new cell added -/
-theorem generated_insert_reaches_leaf_insert (s : State (NV α)) (fuel n m : Nat) (hv : VS s n) (hm : VVal s m)
+/-- **the generated `_insert_into_tree` is the model's complete insertion** (the whole routine: descent, creation and
+    linking of the new red leaf, upward propagation of its minimum gradient, `_rb_insert_fixup` -- the recolouring loop
+    with its six inlined rotations, all cases and both mirror images -- and the blackening of the root).  Run at `NV α`
+    on arrays that hold the image of a non-empty tree `t0` (root and NIL row black, the NIL row holding the sentinel),
+    with `node_id` a fresh row and `value` the node `nn`, the program returns with arrays that hold the image of
+    `rbInsert S nn t0` (Model/ViewshedFix.lean) -- shape, colours, keys, gradients, stored maxima -- well linked, the old
+    rows plus `node_id`, `ret0` the root row, the NIL row unchanged in maximum and colour, the root black.
+    Composed with the model theorems: `rbInsert` is `leafInsert` followed by rotations and recolourings (`Rebal`), so it
+    holds exactly the old nodes plus `nn`, preserves `Rel` (BST, no overestimate below the root, node set = dummy +
+    active list) with the new cell added, and preserves "no overestimate anywhere" (`AugLe`). -/
+theorem generated_insert_is_model_insert (s : State (NV α)) (fuel n m : Nat) (hv : VS s n) (hm : VVal s m)
     (hrun : s.ctl = .run) (l : Sh) (i : Nat) (rr : Sh) (hL : Linked (s.ia "tree_nodes") n (-1) (.node l i rr))
     (hN : (Sh.node l i rr).idxs.Nodup) (hroot : s.ienv "root" = i) (nid : Nat) (hnid : nid + 1 < n)
     (hfresh : nid ∉ (Sh.node l i rr).idxs) (hid : s.ienv "node_id" = nid)
-    (hfuel : (Sh.node l i rr).height + 1 < fuel) (t0 : Viewshed.Tree α) (nn : Node α)
+    (hnil : nAt (s.ia "tree_nodes") (n - 1) 0 ≠ 0) (hblack : nAt (s.ia "tree_nodes") i 0 ≠ 0)
+    (hS : vAt (s.fa "tree_vals") (n - 1) 7 = smallest)
+    (hfuel : (Sh.node l i rr).height + 2 ≤ fuel) (t0 : Viewshed.Tree α) (nn : Node α)
     (habs : absT (s.fa "tree_vals") (s.ia "tree_nodes") (.node l i rr) = mapT emb t0) (hval : valNode s = mapN emb nn) :
-    let sh' := insShape (s.fa "tree_vals") (valAt s 0) (.node l i rr) nid
-    ∃ sP : State (NV α), Gen.IL.vsInsert.run s fuel = exec fuel insFixup sP ∧ sP.ctl = .run ∧
-      Linked (sP.ia "tree_nodes") n (-1) sh' ∧ sh'.idxs.Nodup ∧
-      absT (sP.fa "tree_vals") (sP.ia "tree_nodes") sh' = mapT emb (leafInsert nn t0) ∧
-      sP.ienv "inserted" = nid ∧
-      (∀ (S : α) (d : Node α) (st : List (Node α)), Rel S d t0 st → nn.key ≠ d.key → (∀ k ∈ st, k.key ≠ nn.key) →
-        Rel S d (leafInsert nn t0) (nn :: st)) := by
-  obtain ⟨sP, h1, h2, _, h4, h5, h6, h7, _, _⟩ :=
-    vsInsert_prefix_refines s fuel n m hv hm hrun l i rr hL hN hroot nid hnid hfresh hid hfuel
-  refine ⟨sP, h1, h2, h4, h5, ?_, h7, fun S d st hr hd hf => leaf_insert_preserves nn hr hd hf (Rebal.refl _)⟩
-  rw [h6, habs, hval, insCoreC_emb, (insCoreC_eq nn t0).1]
-  rfl
+    let r := Gen.IL.vsInsert.run s fuel
+    let t1 := rbInsert smallestK nn t0
+    r.ctl = .ret ∧ VS r n ∧ (∃ sh' : Sh, Linked (r.ia "tree_nodes") n (-1) sh' ∧ sh'.idxs.Nodup ∧
+        sh'.idxs.Perm (nid :: (Sh.node l i rr).idxs) ∧
+        absT (r.fa "tree_vals") (r.ia "tree_nodes") sh' = mapT emb t1 ∧ r.ienv "ret0" = sh'.ptr) ∧
+      vAt (r.fa "tree_vals") (n - 1) 7 = smallest ∧ nAt (r.ia "tree_nodes") (n - 1) 0 ≠ 0 ∧ isRed t1 = false ∧
+      Rebal smallestK (leafInsert nn t0) t1 ∧
+      (∀ k, k ∈ t1.toList ↔ k = nn ∨ k ∈ t0.toList) ∧
+      (∀ (d : Node α) (st : List (Node α)), Rel smallestK d t0 st → nn.key ≠ d.key → (∀ k ∈ st, k.key ≠ nn.key) →
+        Rel smallestK d t1 (nn :: st)) ∧
+      (AugLe smallestK t0 → AugLe smallestK t1) := by
+  intro r t1
+  obtain ⟨r1, r2, sh', r3, r4, r5, r6, r7, r8, r9, r10⟩ :=
+    vsInsert_model s fuel n m hv hm hrun l i rr hL hN hroot nid hnid hfresh hid hnil hblack hfuel smallestK
+      (by rw [hS, smallest_emb]) t0 nn habs hval
+  have hreb : Rebal smallestK (leafInsert nn t0) t1 := rbInsert_rebal smallestK nn t0
+  refine ⟨r1, r2, ⟨sh', r3, r4, r5, r6, r7⟩, by rw [r8, smallest_emb], r9, r10, hreb, fun k => ?_,
+    fun d st hr hd hf => leaf_insert_preserves nn hr hd hf hreb, fun ha => hreb.augLe (insCore_AugLe smallestK nn ha)⟩
+  rw [hreb.toList]
+  exact insCore_toList nn t0 k
 
-/-- **the generated `_delete_from_tree`, descent only** (PARTIAL: the splice, the loops L1 / L2 with the recomputations
-    F1 / C of the stored maxima and the colour fixup -- `ILVs.delRest` -- are not covered): a key that is not in the tree
-    makes the program stop with `ValueError` (the model's `delCore = none`); a key that is in the tree makes it continue
-    with `z` = the node found and `y` = the node the model splices out: `z` itself when it has a NIL child, else the
-    leftmost node of its right subtree -/
-theorem generated_delete_descent (s : State F) (fuel n : Nat) (hv : VS s n) (hrun : s.ctl = .run) (sh : Sh)
+/-- **the generated `_delete_from_tree` is the pass-form deletion with the colour fix-up**, for every number type (the
+    whole routine: search, choice of the node `y` to splice out -- `z` or its in-order successor --, the splice, loop L1,
+    the recomputation F1, the successor copy with the recomputation C, loop L2, `_rb_delete_fixup` -- all four cases,
+    both mirror images, the six inlined rotations -- and the blackening of `x`).
+    A key that is not in the tree makes the program stop with `ValueError` (the model's `delCore = none`).  A key found
+    at `(l, z, r, ctx)` in a tree that is not the single node `z` (the status structure always keeps its dummy root),
+    with a black NIL row and every colour cell `RB_RED` or `RB_BLACK`, makes it return with arrays that hold
+      `rbDelFix S (path of x) t1`  if `y` was black and its child `x` is a node,  else  `t1`,
+    where `t1 = delPassArr ..` is the tree after the four passes *as the code has them* (`ILVs.delPassT`,
+    Proofs/ILViewshedDelPass.lean: the code's operand orders, its `==` on the stored numbers, ties and NaN included),
+    well linked over the old rows without `y`, `ret0` the root row, `ret1 = y`, NIL row and colour sanity kept.
+    `rbDelFix` is a sequence of rotations and recolourings (`Rebal`, Proofs/ViewshedFix.lean), so whatever `Rebal`
+    preserves (node list, order, no overestimate, exactness of the stored maxima) is preserved from `t1`.
+    That the pass form is the hand model's `delCore` over a linear order is `ILVs.delPassT_eq_delCore`; the statement
+    in terms of the hand model is `generated_delete_is_model_delete` below. -/
+theorem generated_delete_is_pass_form (s : State F) (fuel n : Nat) (hv : VS s n) (hrun : s.ctl = .run) (sh : Sh)
     (hL : Linked (s.ia "tree_nodes") n (-1) sh) (hN : sh.idxs.Nodup) (hroot : s.ienv "root" = sh.ptr)
-    (hf : sh.height + 1 < fuel) :
+    (hnil : nAt (s.ia "tree_nodes") (n - 1) 0 = 1) (hcol : ∀ j ∈ sh.idxs, ColV (nAt (s.ia "tree_nodes") j 0))
+    (hf : sh.height + 2 ≤ fuel) :
     ((absT (s.fa "tree_vals") (s.ia "tree_nodes") sh).contains ⟨s.fenv "key"⟩ = false →
       (Gen.IL.vsDelete.run s fuel).ctl = .err "ValueError") ∧
     (∀ (l : Sh) (z : Nat) (r : Sh) (ctx : ILVs.Ctx),
-      findZ (s.fa "tree_vals") ⟨s.fenv "key"⟩ sh [] = some (l, z, r, ctx) →
-      ∃ sD : State F, Gen.IL.vsDelete.run s fuel = exec fuel delRest sD ∧ sD.ctl = .run ∧ sD.ia = s.ia ∧ sD.fa = s.fa ∧
-        sD.ienv "z" = z ∧ sD.ienv "y" = spliceIdx l z r) := by
-  refine ⟨fun h => vsDelete_absent s fuel n hv hrun sh hL hroot (by omega) h, fun l z r ctx hfz => ?_⟩
-  obtain ⟨sD, h1, h2, h3, h4, _, h6, h7, _⟩ := vsDelete_descent_refines s fuel n hv hrun sh hL hN hroot l z r ctx hfz hf
-  exact ⟨sD, h1, h2, h3, h4, h6, h7⟩
+      findZ (s.fa "tree_vals") ⟨s.fenv "key"⟩ sh [] = some (l, z, r, ctx) → ¬ (l = .nil ∧ r = .nil ∧ ctx = []) →
+      let q := Gen.IL.vsDelete.run s fuel
+      let P := splicePos l z r ctx
+      let S : Fv F := vAt (s.fa "tree_vals") (n - 1) 7
+      let t1 := delPassArr (s.fa "tree_vals") (s.ia "tree_nodes") n P.1 P.2.1 P.2.2.1 P.2.2.2
+      P.2.1 = spliceIdx l z r ∧ q.ctl = .ret ∧ VS q n ∧
+      ∃ sh' : Sh, Linked (q.ia "tree_nodes") n (-1) sh' ∧ sh'.idxs.Nodup ∧ (P.2.1 :: sh'.idxs).Perm sh.idxs ∧
+        absT (q.fa "tree_vals") (q.ia "tree_nodes") sh' =
+          (if nAt (s.ia "tree_nodes") P.2.1 0 = 1 ∧ P.1.ptr ≠ -1 then rbDelFix S (P.2.2.1.map Fr.dir) t1 else t1) ∧
+        Rebal S t1 (absT (q.fa "tree_vals") (q.ia "tree_nodes") sh') ∧
+        q.ienv "ret0" = sh'.ptr ∧ q.ienv "ret1" = P.2.1 ∧ vAt (q.fa "tree_vals") (n - 1) 7 = S ∧
+        nAt (q.ia "tree_nodes") (n - 1) 0 = 1 ∧ (∀ j ∈ sh'.idxs, ColV (nAt (q.ia "tree_nodes") j 0))) := by
+  refine ⟨fun h => vsDelete_absent s fuel n hv hrun sh hL hroot (by omega) h, fun l z r ctx hfz hbig => ?_⟩
+  intro q P S t1
+  obtain ⟨c1, c2, sh', c3, c4, c5, c6, c7, c8, c9, c10, c11, _⟩ :=
+    vsDelete_refines s fuel n hv hrun sh hL hN hroot l z r ctx hfz hbig hnil hcol hf
+  obtain ⟨_, _, _, _, _, p3, _⟩ := splicePos_spec l z r ctx
+  have hreb : Rebal S t1 (absT (q.fa "tree_vals") (q.ia "tree_nodes") sh') := by
+    rw [c6]
+    split
+    · exact rbDelFix_rebal S _ t1
+    · exact Rebal.refl t1
+  exact ⟨p3, c1, c2, sh', c3, c4, c5, c6, hreb, c7, c8, c9, c10, c11⟩
+
+/-- **the generated `_delete_from_tree` is the model's complete deletion.**  Run at `NV α` on arrays that hold the
+    image of a tree `t0` (more than the one node to delete; NIL row black and holding the sentinel, colour cells sane)
+    with `key = k` found in the tree, the program returns with arrays that hold the image of `t1`, where
+    `rbDelete smallestK k t0 = some t1` (Model/ViewshedFix.lean): the hand model's `delCore` -- splice or successor copy
+    with the code's repairs of the stored maxima (loops L1, L2, recomputations F1, C), ties included -- followed, when a
+    black node was spliced out and its child is not NIL, by `_rb_delete_fixup` (`rbDelFix`); well linked over the old
+    rows without the freed one, which is returned in `ret1`; `ret0` the root row; NIL row and colour sanity kept.
+    Composed with the model theorems: `t1` is `Rebal`-related to `delCore`'s result, so
+      * the keys stay strictly ordered and exactly the node with key `k` leaves (`delete_preserves_partial`),
+      * if the stored maxima were exact, no two nodes tie in their minimum gradient and only nearer nodes carry the
+        sentinel, the maxima are exact again and `Rel` holds with the cell removed (`delete_preserves_of_no_tie`);
+    with ties "no overestimate" can be lost -- that is a property of the code (`delete_can_overestimate`), and the
+    program is proved to compute exactly that function. -/
+theorem generated_delete_is_model_delete (s : State (NV α)) (fuel n : Nat) (hv : VS s n) (hrun : s.ctl = .run) (sh : Sh)
+    (hL : Linked (s.ia "tree_nodes") n (-1) sh) (hN : sh.idxs.Nodup) (hroot : s.ienv "root" = sh.ptr)
+    (hnil : nAt (s.ia "tree_nodes") (n - 1) 0 = 1) (hcol : ∀ j ∈ sh.idxs, ColV (nAt (s.ia "tree_nodes") j 0))
+    (hS : vAt (s.fa "tree_vals") (n - 1) 7 = smallest) (hf : sh.height + 2 ≤ fuel)
+    (t0 : Viewshed.Tree α) (k : α) (habs : absT (s.fa "tree_vals") (s.ia "tree_nodes") sh = mapT emb t0)
+    (hkey : s.fenv "key" = some k) (l : Sh) (z : Nat) (r : Sh) (ctx : ILVs.Ctx)
+    (hfind : findZ (s.fa "tree_vals") ⟨s.fenv "key"⟩ sh [] = some (l, z, r, ctx))
+    (hbig : ¬ (l = .nil ∧ r = .nil ∧ ctx = [])) :
+    let q := Gen.IL.vsDelete.run s fuel
+    q.ctl = .ret ∧ VS q n ∧ ∃ (sh' : Sh) (c t1 : Viewshed.Tree α),
+      delCore smallestK k t0 = some c ∧ rbDelete smallestK k t0 = some t1 ∧ Rebal smallestK c t1 ∧
+      Linked (q.ia "tree_nodes") n (-1) sh' ∧ sh'.idxs.Nodup ∧ (spliceIdx l z r :: sh'.idxs).Perm sh.idxs ∧
+      absT (q.fa "tree_vals") (q.ia "tree_nodes") sh' = mapT emb t1 ∧
+      q.ienv "ret0" = sh'.ptr ∧ q.ienv "ret1" = spliceIdx l z r ∧ vAt (q.fa "tree_vals") (n - 1) 7 = smallest ∧
+      nAt (q.ia "tree_nodes") (n - 1) 0 = 1 ∧ (∀ j ∈ sh'.idxs, ColV (nAt (q.ia "tree_nodes") j 0)) ∧
+      (∀ (d : Node α) (st : List (Node α)), Rel smallestK d t0 st → (∃ m ∈ st, m.key = k) → d.key ≠ k →
+        BST t1 ∧ ∀ m, m ∈ t1.toList ↔ (m = d ∨ m ∈ st.filter fun m => !(eqv m.key k))) ∧
+      (∀ (d : Node α) (st : List (Node α)), Rel smallestK d t0 st → Exact smallestK t0 → (∃ m ∈ st, m.key = k) →
+        d.key ≠ k → (∀ a ∈ t0.toList, ∀ b ∈ t0.toList, minv a = minv b → a.key = b.key) →
+        (∀ m ∈ t0.toList, minv m = smallestK → m.key < k) →
+        Exact smallestK t1 ∧ Rel smallestK d t1 (st.filter fun m => !(eqv m.key k))) := by
+  intro q
+  obtain ⟨c1, c2, sh', t1, c3, c4, c5, c6, c7, c8, c9, c10, c11, c12⟩ :=
+    vsDelete_model s fuel n hv hrun sh hL hN hroot l z r ctx hfind hbig hnil hcol hf smallestK
+      (by rw [hS, smallest_emb]) t0 k habs hkey
+  obtain ⟨c, hc, hreb⟩ := rbDelete_rebal smallestK k t0 t1 c3
+  obtain ⟨_, _, _, _, _, p3, _⟩ := splicePos_spec l z r ctx
+  rw [p3] at c6 c9
+  refine ⟨c1, c2, sh', c, t1, hc, c3, hreb, c4, c5, c6, c7, c8, c9, by rw [c10, smallest_emb], c11, c12, ?_, ?_⟩
+  · intro d st hr hk hd
+    obtain ⟨c', hc', h⟩ := delete_preserves_partial k hr hk hd
+    rw [hc] at hc'
+    cases hc'
+    exact h t1 hreb
+  · intro d st hr he hk hd hnt hsent
+    obtain ⟨c', hc', h⟩ := delete_preserves_of_no_tie k hr he hk hd hnt hsent
+    rw [hc] at hc'
+    cases hc'
+    exact h t1 hreb
 
 /-! non-vacuity: a concrete state holding the three-node tree of the example after `query_decides` (rows 0 = the root
     with key 2, 1 = key 1, 2 = key 3, 3 = NIL); the generated query at key 3 returns 2, the gradient of the node
@@ -1142,22 +1242,101 @@ def exStateIns [Trig ℚ] : State (NV ℚ) :=
     shp := fun a => if a = "tree_vals" then [5, 8] else if a = "tree_nodes" then [5, 4] else if a = "value" then [8] else [],
     ienv := fun v => if v = "node_id" then 3 else 0 }
 
-example [Trig ℚ] : ∃ sP : State (NV ℚ), Gen.IL.vsInsert.run exStateIns 4 = exec 4 insFixup sP ∧ sP.ctl = .run ∧
-    absT (sP.fa "tree_vals") (sP.ia "tree_nodes") (insShape exVals5 (valAt exStateIns 0) exShape 3) =
-      mapT emb (leafInsert ⟨4, 3, 3, 3, 0, 1, 2⟩ exTree) := by
-  obtain ⟨sP, h1, h2, _, _, h5, _⟩ := generated_insert_reaches_leaf_insert exStateIns 4 5 8
+/-- non-vacuity of `generated_insert_is_model_insert`: the key 4 goes below the red node 3 whose sibling 1 is red as
+    well -- the red-uncle case recolours both black and the root red, the root is blackened again -/
+example [Trig ℚ] :
+    (Gen.IL.vsInsert.run exStateIns 4).ctl = .ret ∧
+      ∃ sh' : Sh, absT ((Gen.IL.vsInsert.run exStateIns 4).fa "tree_vals") ((Gen.IL.vsInsert.run exStateIns 4).ia "tree_nodes") sh' =
+        mapT emb (rbInsert smallestK ⟨4, 3, 3, 3, 0, 1, 2⟩ exTree) ∧ (Gen.IL.vsInsert.run exStateIns 4).ienv "ret0" = sh'.ptr := by
+  obtain ⟨h1, _, ⟨sh', _, _, _, h5, h6⟩, _⟩ := generated_insert_is_model_insert exStateIns 4 5 8
     ⟨rfl, rfl, rfl, rfl, by decide⟩ ⟨rfl, rfl, by decide⟩ rfl (.node .nil 1 .nil) 0 (.node .nil 2 .nil)
-    (by simp [Linked, nAt, exStateIns, exNodes5, Sh.ptr]) (by decide) rfl 3 (by decide) (by decide) rfl (by decide)
+    (by simp [Linked, nAt, exStateIns, exNodes5, Sh.ptr]) (by decide) rfl 3 (by decide) (by decide) rfl
+    (by simp [nAt, exStateIns, exNodes5]) (by simp [nAt, exStateIns, exNodes5])
+    (by simp [vAt, exStateIns, exVals5, smallest]) (by decide)
     exTree ⟨4, 3, 3, 3, 0, 1, 2⟩
     (by simp [absT, nodeAt, vAt, nAt, mapT, mapN, emb, exStateIns, exVals5, exNodes5, exTree])
     (by simp [valNode, valAt, mapN, emb, exStateIns])
-  exact ⟨sP, h1, h2, h5⟩
+  exact ⟨h1, sh', h5, h6⟩
+
+example : rbInsert (smallestK : ℚ) ⟨4, 3, 3, 3, 0, 1, 2⟩ exTree =
+    .node (.node .nil ⟨1, 2, 2, 2, 0, 1, 2⟩ 2 false .nil) ⟨2, 1, 1, 1, 0, 1, 2⟩ 3 false
+      (.node .nil ⟨3, 0, 0, 0, 0, 1, 2⟩ 3 false (.node .nil ⟨4, 3, 3, 3, 0, 1, 2⟩ 3 true .nil)) := by
+  decide
 
 example [Trig ℚ] : (Gen.IL.vsDelete.run { exState with fenv := fun _ => some 7 } 4).ctl = .err "ValueError" := by
-  refine (generated_delete_descent { exState with fenv := fun _ => some 7 } 4 4 ⟨rfl, rfl, rfl, rfl, by decide⟩ rfl exShape
-    exState_holds.linked (by decide) rfl (by decide)).1 ?_
+  refine (generated_delete_is_pass_form { exState with fenv := fun _ => some 7 } 4 4 ⟨rfl, rfl, rfl, rfl, by decide⟩ rfl exShape
+    exState_holds.linked (by decide) rfl (by simp [nAt, exState, exNodes])
+    (by simp [exShape, Sh.idxs, ColV, nAt, exState, exNodes]) (by decide)).1 ?_
   simp [absT, nodeAt, vAt, nAt, exState, exVals, exNodes, exShape, Tree.contains, fv_lt]
   norm_num
+
+/-- non-vacuity of `generated_delete_is_pass_form`, no fix-up: the key 3 sits in the red leaf at row 2, which is
+    spliced out itself; the program returns the freed row 2 -/
+example [Trig ℚ] :
+    (Gen.IL.vsDelete.run { exState with fenv := fun _ => some 3 } 5).ctl = .ret ∧
+      (Gen.IL.vsDelete.run { exState with fenv := fun _ => some 3 } 5).ienv "ret1" = 2 := by
+  obtain ⟨_, h1, _, _, _, _, _, _, _, _, h2, _⟩ := (generated_delete_is_pass_form { exState with fenv := fun _ => some 3 } 5 4
+    ⟨rfl, rfl, rfl, rfl, by decide⟩ rfl exShape exState_holds.linked (by decide) rfl (by simp [nAt, exState, exNodes])
+    (by simp [exShape, Sh.idxs, ColV, nAt, exState, exNodes]) (by decide)).2 .nil 2 .nil [.R (.node .nil 1 .nil) 0]
+    (by
+      simp [findZ, vAt, exState, exVals, exShape, fv_lt]
+      norm_num) (by simp)
+  exact ⟨h1, h2⟩
+
+/-- a four-node tree in six rows (row 4 free, row 5 = NIL): black root 2, black children 1 and 3, the red leaf 4 below 3 -/
+def exVals6 : List (NV ℚ) :=
+  ([2, 1, 1, 1, 0, 1, 2, 3,   1, 2, 2, 2, 0, 1, 2, 2,   3, 0, 0, 0, 0, 1, 2, 3,   4, 3, 3, 3, 0, 1, 2, 3,
+    0, 0, 0, 0, 0, 0, 0, 0,   0, 0, 0, 0, 0, 0, 0, -10000000000000000000000] : List ℚ).map some
+def exNodes6 : List Int := [1, 1, 2, -1,   1, -1, -1, 0,   1, -1, 3, 0,   0, -1, -1, 2,   0, 0, 0, 0,   1, -1, -1, -1]
+def exStateDel [Trig ℚ] : State (NV ℚ) :=
+  { State.empty with
+    fa := fun a => if a = "tree_vals" then exVals6 else [],
+    ia := fun a => if a = "tree_nodes" then exNodes6 else [],
+    shp := fun a => if a = "tree_vals" then [6, 8] else if a = "tree_nodes" then [6, 4] else [],
+    ienv := fun _ => 0,
+    fenv := fun _ => some 3 }
+
+/-- non-vacuity with the fix-up: the key 3 sits in the black node at row 2 whose only child is the red leaf at row 3;
+    row 2 is spliced out, `_rb_delete_fixup` is called with `x` = row 3 (and blackens it) -/
+example [Trig ℚ] :
+    (Gen.IL.vsDelete.run exStateDel 5).ctl = .ret ∧ (Gen.IL.vsDelete.run exStateDel 5).ienv "ret1" = 2 ∧
+      nAt (exStateDel.ia "tree_nodes") (splicePos .nil 2 (.node .nil 3 .nil) [.R (.node .nil 1 .nil) 0]).2.1 0 = 1 ∧
+      (splicePos .nil 2 (.node .nil 3 .nil) [.R (.node .nil 1 .nil) 0]).1.ptr ≠ -1 := by
+  obtain ⟨_, h1, _, _, _, _, _, _, _, _, h2, _⟩ := (generated_delete_is_pass_form exStateDel 5 6
+    ⟨rfl, rfl, rfl, rfl, by decide⟩ rfl (.node (.node .nil 1 .nil) 0 (.node .nil 2 (.node .nil 3 .nil)))
+    (by simp [Linked, nAt, exStateDel, exNodes6, Sh.ptr]) (by decide) rfl (by simp [nAt, exStateDel, exNodes6])
+    (by simp [Sh.idxs, ColV, nAt, exStateDel, exNodes6]) (by decide)).2 .nil 2 (.node .nil 3 .nil) [.R (.node .nil 1 .nil) 0]
+    (by
+      simp [findZ, vAt, exStateDel, exVals6, fv_lt]
+      norm_num) (by simp)
+  exact ⟨h1, h2, by simp [splicePos, nAt, exStateDel, exNodes6], by simp [splicePos, Sh.ptr]⟩
+
+def exTree6 : Viewshed.Tree ℚ :=
+  .node (.node .nil ⟨1, 2, 2, 2, 0, 1, 2⟩ 2 false .nil) ⟨2, 1, 1, 1, 0, 1, 2⟩ 3 false
+    (.node .nil ⟨3, 0, 0, 0, 0, 1, 2⟩ 3 false (.node .nil ⟨4, 3, 3, 3, 0, 1, 2⟩ 3 true .nil))
+
+/-- non-vacuity of `generated_delete_is_model_delete`: the arrays of `exStateDel` hold `exTree6`; deleting the key 3
+    splices out the black node, its red child takes its place and is blackened by the fix-up -/
+example [Trig ℚ] :
+    (Gen.IL.vsDelete.run exStateDel 5).ctl = .ret ∧
+      ∃ (sh' : Sh) (t1 : Viewshed.Tree ℚ), rbDelete smallestK 3 exTree6 = some t1 ∧
+        absT ((Gen.IL.vsDelete.run exStateDel 5).fa "tree_vals") ((Gen.IL.vsDelete.run exStateDel 5).ia "tree_nodes") sh' =
+          mapT emb t1 ∧ (Gen.IL.vsDelete.run exStateDel 5).ienv "ret0" = sh'.ptr := by
+  obtain ⟨h1, _, sh', c, t1, _, h2, _, _, _, _, h3, h4, _⟩ := generated_delete_is_model_delete exStateDel 5 6
+    ⟨rfl, rfl, rfl, rfl, by decide⟩ rfl (.node (.node .nil 1 .nil) 0 (.node .nil 2 (.node .nil 3 .nil)))
+    (by simp [Linked, nAt, exStateDel, exNodes6, Sh.ptr]) (by decide) rfl (by simp [nAt, exStateDel, exNodes6])
+    (by simp [Sh.idxs, ColV, nAt, exStateDel, exNodes6]) (by simp [vAt, exStateDel, exVals6, smallest]) (by decide)
+    exTree6 3 (by simp [absT, nodeAt, vAt, nAt, mapT, mapN, emb, exStateDel, exVals6, exNodes6, exTree6]) rfl
+    .nil 2 (.node .nil 3 .nil) [.R (.node .nil 1 .nil) 0]
+    (by
+      simp [findZ, vAt, exStateDel, exVals6, fv_lt]
+      norm_num) (by simp)
+  exact ⟨h1, sh', t1, h2, h3, h4⟩
+
+example : rbDelete (smallestK : ℚ) 3 exTree6 =
+    some (.node (.node .nil ⟨1, 2, 2, 2, 0, 1, 2⟩ 2 false .nil) ⟨2, 1, 1, 1, 0, 1, 2⟩ 3 false
+      (.node .nil ⟨4, 3, 3, 3, 0, 1, 2⟩ 3 false .nil)) := by
+  decide
 
 example [Trig ℚ] :
     absT ((Gen.IL.vsLeftRotate.run exState 0).fa "tree_vals") ((Gen.IL.vsLeftRotate.run exState 0).ia "tree_nodes")
